@@ -24,13 +24,6 @@ Definition oterm_eqb (a b : oterm) : bool :=
   | _, _ => false
   end.
 
-Fixpoint beq_list (a b : list bytes) : bool :=
-  match a, b with
-  | [], [] => true
-  | x :: a', y :: b' => beq_bytes x y && beq_list a' b'
-  | _, _ => false
-  end.
-
 Record case := mk {
   thr : Z;                         (* compression threshold, -1 = off *)
   lvl : Z;                         (* zlib level *)
@@ -42,7 +35,7 @@ Record case := mk {
                                       each wire byte; the registers themselves are the 16-byte windows of
                                       secret ++ wire_obs and are rebuilt here *)
   wire_obs : bytes;                (* bytes the real writer put on the conn *)
-  chunk_sizes : list N;            (* sizes of the successive conn.Read results *)
+  chunk_sizes : list (N * N);      (* sizes of the successive conn.Read results, run-length encoded (size, times) *)
   read_obs : list bytes;           (* payloads the real reader returned *)
   term_obs : oterm                 (* how reading ended *)
 }.
@@ -63,6 +56,8 @@ Definition aes_map (sec : option bytes) (w eb : bytes) : PositiveMap.t N :=
 Definition aes_of (m : PositiveMap.t N) (reg : bytes) : bytes :=
   match PositiveMap.find (N.succ_pos (pack reg)) m with Some b => [b] | None => [] end.
 
+Definition unrle (l : list (N * N)) : list N := flat_map (fun st => repeat (fst st) (N.to_nat (snd st))) l.
+
 Fixpoint split_sizes (s : bytes) (sz : list N) : list bytes :=
   match sz with
   | [] => match s with [] => [] | _ => [s] end
@@ -70,17 +65,6 @@ Fixpoint split_sizes (s : bytes) (sz : list N) : list bytes :=
   end.
 
 Definition dir_of (b : bool) : dir := if b then ServerBound else ClientBound.
-
-(* premises of C01_stream_roundtrip, decidable form: payload starts with its packet-id VarInt (so it is not
-   empty), the frame body the writer produces fits 2^21-1 and the payload fits the reader's cap *)
-Definition starts_with_id (p : bytes) : bool :=
-  match read_varint p with VVal _ _ _ => true | _ => false end.
-
-Definition fitsb (deflate : Z -> bytes -> bytes) (t l : Z) (d : dir) (p : bytes) : bool :=
-  (if (t <? 0)%Z then (Z.of_N (len p) <=? MAXFRAME)%Z
-   else if (Z.of_N (len p) <? t)%Z then (Z.of_N (len p) + 1 <=? MAXFRAME)%Z
-   else (Z.of_N (len (write_varint (Z.of_N (len p)) ++ deflate l p)) <=? MAXFRAME)%Z
-        && (Z.of_N (len p) <=? cap d)%Z && (0 <? Z.of_N (len p))%Z).
 
 Definition judge (c : case) : verdict :=
   let D := deflate_of (dtbl c) in
@@ -95,6 +79,6 @@ Definition judge (c : case) : verdict :=
   if premises && negb holds then VViolation
   else
     let w := wire D E (thr c) (lvl c) (secret c) (payloads c) in
-    let '(ps, t) := decode_stream I L E cf (secret c) (split_sizes (wire_obs c) (chunk_sizes c)) in
+    let '(ps, t) := decode_stream I L E cf (secret c) (split_sizes (wire_obs c) (unrle (chunk_sizes c))) in
     if beq_bytes w (wire_obs c) && beq_list ps (read_obs c) && oterm_eqb (coarse t) (term_obs c)
     then VOk else VMismatch.
